@@ -101,15 +101,13 @@ group!(halt_stay, prefix = 0, halted = true, bytes = [0x76], |a| true);
 /// acceptance (skip flag, line levels, IFF1, IM=2 or not) are concrete per harness so symbolic
 /// execution follows one acceptance path; the first handler instruction is a concrete NOP
 /// (the instruction space is covered by the groups above)
-fn int_case(skip: bool, int: bool, nmi: bool, iff1: bool, im2: bool, nop_at: usize) {
+fn int_case(skip: bool, int: bool, nmi: bool, iff1: bool, im: Option<u8>, nop_at: usize) {
     let halted: bool = kani::any();
     let mut s = any_start(0, halted, int, nmi);
     s.skip_interrupt = skip;
     s.regs.iff1 = iff1;
-    if im2 {
-        s.im = 2;
-    } else {
-        kani::assume(s.im != 2);
+    if let Some(m) = im {
+        s.im = m;
     }
     s.answers[nop_at] = 0x00;
     // a halted CPU that is not released re-fetches its HALT opcode
@@ -129,11 +127,12 @@ macro_rules! int_group {
         }
     };
 }
-// accepted
-int_group!(int_nmi_intlow, false, false, true, true, false, 0);
-int_group!(int_nmi_inthigh, false, true, true, false, true, 0);
-int_group!(int_im01, false, true, false, true, false, 0);
-int_group!(int_im2, false, true, false, true, true, 3);
+// accepted (the interrupt mode is concrete where the entry path depends on it)
+int_group!(int_nmi_intlow, false, false, true, true, None, 0);
+int_group!(int_nmi_inthigh, false, true, true, false, None, 0);
+int_group!(int_im0, false, true, false, true, Some(0), 0);
+int_group!(int_im1, false, true, false, true, Some(1), 0);
+int_group!(int_im2, false, true, false, true, Some(2), 3);
 // not accepted: IFF1 clear; EI/DI/prefix shadow with both lines high
-int_group!(int_masked, false, true, false, false, false, 0);
-int_group!(int_shadow, true, true, true, true, true, 0);
+int_group!(int_masked, false, true, false, false, None, 0);
+int_group!(int_shadow, true, true, true, true, None, 0);
